@@ -85,8 +85,21 @@ Definition K_pswpin := bs "pswpin".
 Definition K_pswpout := bs "pswpout".
 
 (* ------------------------------------------------ calculate_avail_vmem(mems)
-   zoneinfo = None : open() raised OSError.
-   for line in f: line = line.strip(); if line.startswith(b'low'): watermark_low += int(line.split()[1]) *)
+       try:    f = open_binary(f"{get_procfs_path()}/zoneinfo")
+       except OSError: return fallback
+       with f:
+           for line in f: line = line.strip(); if line.startswith(b'low'): watermark_low += int(line.split()[1])
+   What /proc/zoneinfo does when it is opened and read is the state [zstate]: the file does not
+   exist, open() fails with another errno (every one is an OSError: same branch), the content is
+   delivered, or reading fails after [b] was delivered (the loop is outside the try: OSError escapes). *)
+Inductive zerr := EACCES | EIO | EISDIR.
+Inductive zstate :=
+| ZAbsent                 (* ENOENT *)
+| ZOpenErr (e : zerr)     (* open() raises PermissionError / OSError(EIO) / IsADirectoryError *)
+| ZContent (b : bytes)
+| ZReadErr (b : bytes).   (* [b] is read, then read() raises OSError(EIO) *)
+Definition zs_of_opt (o : option bytes) : zstate :=
+  match o with Some b => ZContent b | None => ZAbsent end.
 Fixpoint zone_low (acc : Z) (ls : list bytes) : outcome Z :=
   match ls with
   | [] => Val acc
@@ -126,15 +139,23 @@ Section FloatPath.
   (* int(x): truncation toward zero *)
   Definition py_trunc (x : pynum) : Z := match x with PI z => z | PF h => Z.quot h 2 end.
 
-  Definition calc_avail_gen (pagesize : Z) (d : dict) (zoneinfo : option bytes) : outcome Z :=
+  (* None: the except OSError branch; Some o: outcome of the with/for block *)
+  Definition zone_open (z : zstate) : option (outcome Z) :=
+    match z with
+    | ZAbsent | ZOpenErr _ => None
+    | ZContent c => Some (zone_low 0 (lines_keep c))
+    | ZReadErr c => Some (do _ <- zone_low 0 (lines_keep c); Exc OSError)
+    end.
+
+  Definition calc_avail_gen (pagesize : Z) (d : dict) (zoneinfo : zstate) : outcome Z :=
     do free <- of_option KeyError (dget K_MemFree d);
     let fallback := free + default0 (dget K_Cached d) in
     match dget K_ActiveFile d, dget K_InactiveFile d, dget K_SReclaimable d with
     | Some lru_active_file, Some lru_inactive_file, Some slab_reclaimable =>
-      match zoneinfo with
+      match zone_open zoneinfo with
       | None => Val fallback
-      | Some z =>
-        do wl0 <- zone_low 0 (lines_keep z);
+      | Some rd =>
+        do wl0 <- rd;
         let watermark_low := wl0 * pagesize in
         let avail := PI (free - watermark_low) in
         let pagecache := lru_active_file + lru_inactive_file in
@@ -169,7 +190,7 @@ Record vmres := {
 Definition miss (name : bytes) (o : option Z) : list bytes :=
   match o with Some _ => [] | None => [name] end.
 
-Definition vm_of_dict (pagesize : Z) (d : dict) (zoneinfo : option bytes) : outcome vmres :=
+Definition vm_of_dict (pagesize : Z) (d : dict) (zoneinfo : zstate) : outcome vmres :=
   do total <- of_option KeyError (dget K_MemTotal d);
   do free <- of_option KeyError (dget K_MemFree d);
   let buffers_o := dget K_Buffers d in
@@ -209,9 +230,12 @@ Definition vm_of_dict (pagesize : Z) (d : dict) (zoneinfo : option bytes) : outc
                       miss (bs "inactive") inactive_o ++
                       (if neg then [bs "available"] else []) |}.
 
-Definition virtual_memory_gen (lenient : bool) (pagesize : Z) (meminfo : bytes) (zoneinfo : option bytes) : outcome vmres :=
+Definition virtual_memory_z (lenient : bool) (pagesize : Z) (meminfo : bytes) (zoneinfo : zstate) : outcome vmres :=
   do d <- parse_meminfo lenient meminfo;
   vm_of_dict pagesize d zoneinfo.
+(* the two ordinary states: the file is there (Some content) or not (None) *)
+Definition virtual_memory_gen (lenient : bool) (pagesize : Z) (meminfo : bytes) (zoneinfo : option bytes) : outcome vmres :=
+  virtual_memory_z lenient pagesize meminfo (zs_of_opt zoneinfo).
 (* the code as it is now *)
 Definition virtual_memory := virtual_memory_gen true.
 
